@@ -126,6 +126,65 @@ theorem noCR_append (a b : Bytes) (ha : NoCR a) (hb : NoCR b) : NoCR (a ++ b) :=
   · exact ha x h
   · exact hb x h
 
+theorem convOk_cons (s : Server W I) (l : Bytes) (rest : List Bytes) (hrest : rest ≠ [])
+    (h1 : (handle S s l).res = .ok) (h2 : (handle S s l).srv.authenticated = false)
+    (h3 : l.length ≤ maxAuthLength) (h4 : convOk S (handle S s l).srv rest) : convOk S s (l :: rest) := by
+  cases rest with
+  | nil => exact absurd rfl hrest
+  | cons l' t => exact ⟨h1, h2, h3, h4⟩
+
+theorem convFinal_cons (s : Server W I) (l : Bytes) (rest : List Bytes) :
+    convFinal S s (l :: rest) = convFinal S (handle S s l).srv rest := rfl
+
+/-- `k` times NEGOTIATE_UNIX_FD in front of a conversation changes nothing (each is answered ERROR). -/
+theorem convOk_negotiate (s : Server W I) (k : Nat) (ls : List Bytes) (hls : ls ≠ [])
+    (ha : s.authenticated = false) (h : convOk S s ls) :
+    convOk S s (List.replicate k (lit "NEGOTIATE_UNIX_FD") ++ ls) ∧
+    convFinal S s (List.replicate k (lit "NEGOTIATE_UNIX_FD") ++ ls) = convFinal S s ls := by
+  induction k with
+  | zero => exact ⟨h, rfl⟩
+  | succ k ih =>
+    have hn := handle_negotiate S s
+    have hsrv : (handle S s (lit "NEGOTIATE_UNIX_FD")).srv = s := by rw [hn]; rfl
+    have hres : (handle S s (lit "NEGOTIATE_UNIX_FD")).res = .ok := by rw [hn]; rfl
+    rw [List.replicate_succ, List.cons_append]
+    refine ⟨convOk_cons S s _ _ (by simp [hls]) hres (by rw [hsrv]; exact ha) (by decide) (by rw [hsrv]; exact ih.1), ?_⟩
+    rw [convFinal_cons, hsrv]; exact ih.2
+
+/-- A conversation starting at a line boundary of an open, unauthenticated connection (not only a fresh one):
+e.g. after earlier rejected attempts. -/
+theorem conv_accepted_from (p : Proto W I) (hf : p.firstByte = false) (hb : p.buffer = [])
+    (hc : p.closed = false) (hcr : p.crashed = false) (ha : p.authenticated = false)
+    (stream : Bytes) (ls : List Bytes) (hsp : splitCRLF stream = (ls, [])) (h : convOk S p.srv ls)
+    (reads : List Bytes) (hall : ∀ r ∈ reads, r ≠ []) (hflat : reads.flatten = stream) :
+    (runReads S p reads).authenticated = true ∧ (runReads S p reads).closed = false ∧
+    (runReads S p reads).guid = (convFinal S p.srv ls).guid := by
+  have hne : reads ≠ [] := by
+    intro h0
+    rw [h0] at hflat
+    simp at hflat
+    rw [← hflat] at hsp
+    simp [splitCRLF] at hsp
+    rw [← hsp] at h
+    exact h
+  have hs := (runReads_sim_whole S p reads hne hall).obs
+  rw [hflat] at hs
+  have hw : (recv S p stream).authenticated = true ∧ (recv S p stream).closed = false ∧
+      (recv S p stream).guid = (convFinal S p.srv ls).guid := by
+    rw [recv_lines S p stream hcr ha hf, recvLines_eq, hb, List.nil_append, hsp]
+    have := lineLoop_convOk S (p.setBuf []) ls hc h
+    generalize lineLoop S (p.setBuf []) ls = qk at this
+    obtain ⟨q, k⟩ := qk
+    obtain ⟨h1, h2, h3⟩ := this
+    simp only at h1 h2 h3
+    subst h1
+    exact ⟨rfl, h2, by show q.srv.guid = _; rw [h3]; rfl⟩
+  have e1 : (runReads S p reads).authenticated = (recv S p stream).authenticated := congrArg Obs.authenticated hs
+  have e2 : (runReads S p reads).closed = (recv S p stream).closed := congrArg Obs.closed hs
+  have e3 : (runReads S p reads).guid = (recv S p stream).guid := congrArg Obs.guid hs
+  rw [e1, e2, e3]
+  exact hw
+
 /-- ANONYMOUS is accepted under every splitting of `\0AUTH ANONYMOUS\r\nBEGIN\r\n`. -/
 theorem anonymous_accepted (guid : Bytes) (w : RealWorld) (reads : List Bytes) (hall : ∀ r ∈ reads, r ≠ [])
     (hflat : reads.flatten = 0 :: encodeLines [lit "AUTH ANONYMOUS", lit "BEGIN"]) :
